@@ -2730,3 +2730,39 @@ def context_restore_table(ctx, rule):
                        f'{"passes" if passes else "fails"}) in {"an HTML" if doc_html else "a non-HTML"} document {problem}. The same matcher '
                        f'evaluates the next element of select()/filter()/closest(): it would be evaluated with the wrong namespace map / '
                        f'iframe policy, so these entry points stop being views of match()')
+
+
+def no_tree_recursion_rule(ctx, rule):
+    """The tree-walking helpers of _DocumentNav (descendants, children, text collection, siblings) and the entry points that
+    iterate over them are not part of a cycle of the call graph: a walk that recurses once per tree level raises RecursionError on
+    documents nested deeper than the interpreter's recursion limit (about a thousand levels), where an iterative walk answers."""
+    from ..callgraph import CallGraph
+    cg = ctx.get('callgraph', lambda: CallGraph(ctx.types, ctx.src))
+    mmod = ctx.src.mod('css_match')
+    # normalize_value recurses over nested attribute-value lists (the depth of a list literal given through the bs4 API), not over
+    # the tree: reviewed, exempt
+    nav = [f'css_match.{q}' for q in mmod.functions if q.startswith('_DocumentNav.') and q.count('.') == 1 and q != '_DocumentNav.normalize_value']
+    nav += [f'css_match.CSSMatch.{m}' for m in ('select', 'closest', 'filter') if f'CSSMatch.{m}' in mmod.functions]
+    if len(nav) < 10:
+        raise AnalysisError('fewer than ten navigation helpers found in css_match._DocumentNav (anchor vanished)')
+    bad = None
+    for q in sorted(nav):
+        reach = set()
+        stack = list(cg.edges.get(q, ()))
+        while stack:
+            f = stack.pop()
+            if f in reach or f == 'css_match._DocumentNav.normalize_value':
+                continue        # cycles through normalize_value are recursion over nested value lists (exempt, see above)
+            reach.add(f)
+            stack.extend(cg.edges.get(f, ()))
+        cyc = q in reach
+        rule.instance({'function': q, 'part_of_a_call_cycle': cyc}, key=f'recursion|{q}', sample_cap=4)
+        if cyc and bad is None:
+            bad = q
+    rule.obligation(bad is None)
+    if bad is not None:
+        mn, _, rest = bad.partition('.')
+        rule.violation(f'{bad} recurses', mmod.where(mmod.functions[rest]),
+                       f'{bad} can call itself (directly or through the functions it calls): a tree walk that recurses per level of the '
+                       f'document raises RecursionError on trees nested deeper than the recursion limit (e.g. 1500 nested <div>), which an '
+                       f'iterative walk handles')
